@@ -481,10 +481,183 @@ func sectionPipelines(data [][]byte) {
 	}
 }
 
+// ---------------------------------------------------------------- repeated filter names, per-stage parameters
+
+// manualEncode folds Filter.Encode over the pipeline from the last stage to the first, every stage
+// with a filter constructed from its OWN parameters (the model's spec_encode); inter[j] is the input
+// of decode stage j, inter[len] the content.
+func manualEncode(ps []pset, content []byte) ([][]byte, error) {
+	inter := make([][]byte, len(ps)+1)
+	inter[len(ps)] = content
+	for j := len(ps) - 1; j >= 0; j-- {
+		e, err := encodeWith(ps[j].name, ps[j].parms, inter[j+1])
+		if err != nil {
+			return nil, err
+		}
+		inter[j] = e
+	}
+	return inter, nil
+}
+
+func lzwParms() map[string]int {
+	m := withEC(nil, r.Rand.Intn(3)-1)
+	switch r.Rand.Intn(12) {
+	case 0:
+		m["Predictor"] = []int{2, 10, 11, 12, 13, 14, 15}[r.Rand.Intn(7)]
+		m["Columns"] = 1 + r.Rand.Intn(5)
+	case 1, 2:
+		m["Predictor"] = 1
+		m["Columns"] = 1 + r.Rand.Intn(5)
+	}
+	return m
+}
+
+func flateParms() map[string]int {
+	m := map[string]int{}
+	switch r.Rand.Intn(6) {
+	case 0:
+		m["Predictor"] = []int{2, 10, 11, 12, 13, 14, 15}[r.Rand.Intn(7)]
+	case 1, 2, 3:
+		m["Predictor"] = 1
+	}
+	if len(m) > 0 {
+		if r.Rand.Intn(2) == 0 {
+			m["Columns"] = 1 + r.Rand.Intn(6)
+		}
+		if r.Rand.Intn(2) == 0 {
+			m["Colors"] = 1 + r.Rand.Intn(4)
+		}
+		if r.Rand.Intn(2) == 0 {
+			m["BitsPerComponent"] = []int{1, 2, 4, 8, 16}[r.Rand.Intn(5)]
+		}
+	}
+	return m
+}
+
+func stageOf(name string) pset {
+	switch name {
+	case filter.LZW:
+		return pset{name, lzwParms()}
+	case filter.Flate:
+		return pset{name, flateParms()}
+	}
+	return pset{name, nil}
+}
+
+// content with lengths across the LZW code-width boundaries (9->10, 10->11, 11->12 bits, table reset)
+func widthData() [][]byte {
+	var out [][]byte
+	ranges := [][2]int{{250, 300}, {500, 520}, {1020, 1050}, {2040, 2060}, {4090, 4100}}
+	for _, rg := range ranges {
+		reps := r.Pick(2, 8)
+		for i := 0; i < reps; i++ {
+			n := rg[0] + r.Rand.Intn(rg[1]-rg[0]+1)
+			out = append(out, rnd(n), nonrun(n)) // incompressible
+			c := make([]byte, n)                 // compressible
+			for j := range c {
+				c[j] = "etaoin shrdlu\n"[r.Rand.Intn(14)]
+			}
+			out = append(out, c)
+			out = append(out, cat(rep(byte(i), n/2), rnd(n-n/2)))
+		}
+	}
+	return out
+}
+
+func checkSpecPipeline(ps []pset, d []byte) {
+	var pl []types.PDFFilter
+	var names []string
+	for _, p := range ps {
+		pl = append(pl, types.PDFFilter{Name: p.name, DecodeParms: mkDict(p.parms)})
+		names = append(names, p.String())
+	}
+	pname := strings.Join(names, ",")
+	in := map[string]any{"pipeline": pname, "data": vh.Hex(d)}
+	r.Count("repeated-names-pipeline-len:" + strconv.Itoa(len(ps)))
+	raw, err := sdEncode(pl, d)
+	if err != nil {
+		r.OracleFail("pipeline-encode-fails", in, err.Error())
+		return
+	}
+	// which parameters was each stage encoded with?  StreamDict.Encode must equal the stage-wise fold
+	// of Filter.Encode with each stage's own parameters (spec_encode of the model) ...
+	inter, merr := manualEncode(ps, d)
+	if merr != nil {
+		r.OracleFail("pipeline-encode-fails", in, merr.Error())
+		return
+	}
+	if bytes.Equal(raw, inter[0]) {
+		r.OracleOK()
+	} else {
+		r.OracleFail("pipeline-encode-not-stagewise", in, "StreamDict.Encode differs from encoding every stage with its own DecodeParms: "+trunc(vh.Hex(raw))+" vs "+trunc(vh.Hex(inter[0])))
+	}
+	// ... and decoding each stage of StreamDict's output separately with its own parameters must
+	// reproduce the stage inputs
+	known := classOf(ps, "") != ""
+	cur := raw
+	for j, p := range ps {
+		if p.pred() > 1 && (p.name == filter.LZW || p.name == filter.Flate) {
+			break // known predictor findings: this stage does not invert its encoder
+		}
+		dec, derr := decodeWith(p.name, p.parms, cur)
+		if derr != nil || !bytes.Equal(dec, inter[j+1]) {
+			r.OracleFail("pipeline-stage-decode-mismatch", map[string]any{"pipeline": pname, "data": vh.Hex(d), "stage": j},
+				"decoding stage "+strconv.Itoa(j)+" of StreamDict.Encode's output with the stage's own parameters gives "+trunc(res(dec, derr)))
+			break
+		}
+		r.OracleOK()
+		cur = dec
+	}
+	got, derr := sdDecode(pl, raw)
+	if derr == nil && bytes.Equal(got, d) {
+		r.OracleOK()
+	} else if known {
+		fail(classOf(ps, ""), in, "StreamDict.Decode(StreamDict.Encode(x)) = "+trunc(res(got, derr)))
+	} else {
+		r.OracleFail("pipeline-roundtrip", map[string]any{"pipeline": pname, "data": vh.Hex(d), "raw": vh.Hex(raw)},
+			"StreamDict.Decode(StreamDict.Encode(x)) = "+trunc(res(got, derr)))
+	}
+}
+
+func sectionRepeatedNames() {
+	data := widthData()
+	ec0 := pset{filter.LZW, map[string]int{"EarlyChange": 0}}
+	ec1 := pset{filter.LZW, map[string]int{"EarlyChange": 1}}
+	lzw := pset{filter.LZW, nil}
+	ahx := pset{filter.ASCIIHex, nil}
+	fixed := [][]pset{{ec0, lzw}, {lzw, ec0}, {lzw, ahx, ec0}, {ec0, ahx, ec1}, {ec1, ec0, lzw, ec0},
+		{{filter.Flate, map[string]int{"Predictor": 1, "Columns": 3}}, {filter.Flate, nil}},
+		{{filter.Flate, nil}, ec0, {filter.Flate, map[string]int{"Predictor": 1, "Colors": 3, "BitsPerComponent": 16}}, lzw}}
+	others := []string{filter.ASCIIHex, filter.ASCII85, filter.RunLength, filter.LZW, filter.Flate}
+	for i, d := range data {
+		for j, ps := range fixed {
+			if r.Thorough() || (i+j)%3 == 0 {
+				checkSpecPipeline(ps, d)
+			}
+		}
+		for t := 0; t < r.Pick(2, 8); t++ {
+			k := 2 + r.Rand.Intn(3)
+			base := []string{filter.LZW, filter.LZW, filter.Flate}[r.Rand.Intn(3)]
+			ps := make([]pset, k)
+			a := r.Rand.Intn(k)
+			b := (a + 1 + r.Rand.Intn(k-1)) % k
+			for j := range ps {
+				if j == a || j == b {
+					ps[j] = stageOf(base)
+				} else {
+					ps[j] = stageOf(others[r.Rand.Intn(len(others))])
+				}
+			}
+			checkSpecPipeline(ps, d)
+		}
+	}
+}
+
 func main() {
 	r = vh.Start("C15")
 	defer r.Finish()
 	data := genData()
 	sectionFilters(data)
 	sectionPipelines(data)
+	sectionRepeatedNames()
 }
